@@ -38,6 +38,13 @@ def gen_trace(seed, world, tier, mode=None):
         # mid-size problems with the DEFAULT sketch widths (block 16, test sketch 8): the only
         # place where the defaults are narrower than the matrix
         m, n = R.randint(17, 22), R.randint(9, 20)
+    # directed at the CG micro-solver's own success test: strictly tall input of norm 1e-4 / 1e-5
+    # (the window in which its absolute breakdown threshold fires for SOME right-hand sides only),
+    # SPD column solver, no forced fallback, generous budget
+    spd_window = kind in ("rsp_compute", "rsp_colvar", "hybrid") and not midsize and R.random() < 0.12
+    if spd_window:
+        n = R.randint(2, hi)
+        m = n + R.randint(2, 6)
     plateau = kind == "cgne" and not midsize and R.random() < 0.25
     if plateau:
         # directed at CG plateaus: a cluster of singular values plus one small one, large enough
@@ -46,7 +53,7 @@ def gen_trace(seed, world, tier, mode=None):
         m = n + R.randint(0, 3)
     # a few requests in the wrong orientation: the documented answer is a loud rejection
     # (judged by C20); if a solver answers instead, its flag must be sound for that input too
-    wrong = R.random() < 0.06 and not plateau
+    wrong = R.random() < 0.06 and not plateau and not spd_window
     if kind in ("rsp_colvar", "hybrid", "cgne", "cgne_prec") and (m < n) != wrong:
         m, n = n, m
     if kind == "rsp_rowvar" and (m > n) != wrong:
@@ -61,7 +68,12 @@ def gen_trace(seed, world, tier, mode=None):
         cond = R.choice([1e3, 1e3, 3e2])
     A = {"gen": "psvd", "m": m, "n": n, "seed": R.randrange(10 ** 6),
          "sigma": [round_sig(v) for v in spec_fn(R, k, cond)]}
-    sc = R.choice([0, 0, 0, 0, -3, 3, -6, 6, -9, 9])     # "for all full-rank inputs": any uniform scale
+    # "for all full-rank inputs": any uniform scale - every decade, because an absolute threshold
+    # inside an iteration has a WINDOW of scales in which it misfires (too small: everything
+    # breaks down loudly; too large: nothing does)
+    sc = R.choice([0, 0, 0, 0, -3, 3, -6, 6, -9, 9, R.randint(-9, 9), R.randint(-9, 9), R.randint(-7, -2)])
+    if spd_window:
+        sc = R.choice([-4, -4, -5])
     if sc:
         A = {"gen": "scale", "of": A, "c": 10.0 ** sc}
     tol = 10.0 ** -R.choice([3, 4, 5, 6, 7, 8])
@@ -124,6 +136,10 @@ def gen_trace(seed, world, tier, mode=None):
     call = {"k": "call", "obj": "s0", "meth": meth, "args": [A],
             "tags": {"kind": kind, "m": m, "n": n, "cond": cond, "wrong_orientation": wrong, "scale": sc}}
     x = R.random() if mode is None else {"plain": 0.1, "clock": 0.55, "spd": 0.65, "jitter": 0.75, "sweep": 0.9}[mode]
+    if spd_window:
+        x = 0.1
+        cfg["column_solver"] = "spd"
+        cfg["max_iter"] = max(cfg["max_iter"], 400)
     if kind == "hybrid" and mode is None and 0.25 <= x < 0.45:
         x = 0.5     # the hybrid alternates two kinds of steps with bookkeeping in between: more clock scripts
     if midsize and x >= 0.82:
